@@ -25,6 +25,7 @@ if REPO != "/repo":
     sh("go mod edit -replace github.com/go-kid/ioc=%s" % REPO, HERE + "/harness")
 
 props = [json.loads(l) for l in open(HERE + "/properties.jsonl")]
+ALL = [p["id"] for p in props]
 file_props = {}
 for p in props:
     for f in p["anchors"]["files"]:
@@ -112,12 +113,15 @@ def main():
                     continue  # the repository's own tests notice it
                 n += 1
                 res = {}
-                for c in sorted(set(file_props[f])):
+                order = sorted(set(file_props[f]))
+                if "--all-checks" in args:
+                    order += [c for c in ALL if c not in order]
+                for c in order:
                     rc2, out2 = sh("./check %s --tier quick" % c, HERE, 900)
                     res[c] = rc2
-                    if rc2 == 1:
-                        break  # one alarm is enough to call it killed
-                killed = any(v == 1 for v in res.values())
+                    if rc2 == 1 or (rc2 == 2 and "--all-checks" in args):
+                        break  # one alarm is enough to call it killed (a check that cannot finish - a hang - counts too in the all-checks pass)
+                killed = any(v == 1 for v in res.values()) or ("--all-checks" in args and any(v == 2 for v in res.values()))
                 rows.append({"file": f, "line": i + 1, "op": op, "old": old.strip(), "new": new.strip(), "results": res, "killed": killed})
                 print("%s:%d %-22s %s %s" % (f, i + 1, op, "KILLED" if killed else "SURVIVED", res), flush=True)
             finally:
